@@ -15,7 +15,13 @@ uint8_t __vf_nondet_bool(void){ uint8_t vf_nd = nondet_bool(); return vf_nd; }
 void __vf_check_ub(int c, const char *m){ __CPROVER_assert(c, "UB: undefined behaviour (overflow / shift / division / trap)"); }
 void __vf_unreachable(void){ __CPROVER_assert(0, "UB: 'unreachable' reached"); __CPROVER_assume(0); }
 uint64_t __vf_undef_u64(void){ return nondet_ulong(); }
+#ifdef VF_UNDEF_PTR_NULL
+/* an uninitialised pointer is the null pointer: a dereference is still reported (null), but CBMC's value sets stay small
+   (a nondeterministic pointer makes every later dereference range over every object in scope: measured 4x on the ThreadPool harness) */
+void *__vf_undef_ptr(void){ return (void*)0; }
+#else
 void *__vf_undef_ptr(void){ return nondet_ptr(); }
+#endif
 void __vf_bad_icall(void){ __CPROVER_assert(0, "UB: indirect call through an invalid pointer or to a function of a different type"); __CPROVER_assume(0); }
 void __assert_fail(void *a, void *b, uint32_t c, void *d){ __CPROVER_assert(0, "tulz assert() failed"); __CPROVER_assume(0); }
 void __cxa_pure_virtual(void){ __CPROVER_assert(0, "UB: pure virtual call"); __CPROVER_assume(0); }
